@@ -119,6 +119,26 @@ CHECKS = {
         'gmpy.popcount as sum of bits; int.to_bytes/from_bytes on lists of '
         'byte terms; no-overflow side conditions of the chosen widths are '
         'discharged; ReverseBits/Bits outside'),
+    'C12': (
+        True, '5/C12',
+        'symbolic execution of the real NIST test functions with symbolic '
+        'bit strings / counts / lengths and uninterpreted special functions '
+        '(pysym); z3 decides equality of the integer statistics, of the '
+        'p-value TERMS with the SP 800-22 formulas, and of the threshold and '
+        'parameter rules',
+        'Bounded symbolic model checking, split at the first special-function '
+        'call: RandomWalk cusum statistics (forward/reverse) for every string '
+        'of length 1..9 (13); Frequency, Runs, BlockFrequencyImpl, ChiSquare '
+        'as term equalities for all n < 2^30 and all counts; insufficient-'
+        'data thresholds and parameter ladders for every n < 2^31; linear-'
+        'complexity category arithmetic for every complexity value and 8 '
+        '(37) block sizes of both parities against SP 800-22 3.10; Maurer '
+        'distances for every block sequence (L = 1, 2); non-overlapping '
+        'templates up to length 8 (10).',
+        'erfc/erf/sqrt/log/igamc/BinomialCdf uninterpreted (sqrt with sign '
+        'axioms); util.Bits hands over the symbolic +-1 list; float '
+        'constants as exact binary rationals; numerics, tables and Spectral '
+        'outside'),
 }
 
 NOT_APPLICABLE = {
